@@ -9,6 +9,8 @@ from bronzebeard import asm
 labels = req['labels']
 consts = req['constants']
 kw = {'compress': req['compress']}
+if req.get('include_dirs') is not None:
+    kw['include_dirs'] = req['include_dirs']
 if labels is not None:
     kw['labels'] = labels
 if consts is not None:
